@@ -83,22 +83,35 @@ class Stats(object):
             self.sets[k] |= v
 
 
-def explore(prop, strategy, run_case, n, seed, stats, shrink=True, budget_s=None):
+def explore(prop, strategy, run_case, n, seed, stats, shrink=True, budget_s=None, shrink_budget_s=None):
     """Run n generated cases. Unknown violations are shrunk and appended to
     stats.violations (first root cause only: Hypothesis stops at the first)."""
     import hypothesis
     from hypothesis import given, settings, HealthCheck, Phase
 
     phases = [Phase.generate] + ([Phase.shrink] if shrink else [])
+    if shrink_budget_s is None:
+        shrink_budget_s = 45 if env.tier() == 'quick' else 240
     last = {}
     t0 = time.time()
 
     class Budget(Exception):
         pass
 
+    failing = {}
+
     def body(case):
         if budget_s is not None and time.time() - t0 > budget_s and 'fail' not in last:
             raise Budget()
+        if 'fail' in last:
+            # shrinking: bounded by a wall-clock budget after which unseen candidates count as passing and
+            # known failing ones fail again without being re-run (so Hypothesis finishes with its best example)
+            d = digest(case)
+            if d in failing:
+                last['fail'] = failing[d]
+                raise Found(failing[d][0])
+            if time.time() - last['t'] > shrink_budget_s:
+                return
         res = run_case(case)
         if 'fail' not in last:
             stats.record(case, res)
@@ -110,6 +123,8 @@ def explore(prop, strategy, run_case, n, seed, stats, shrink=True, budget_s=None
                 stats.known_what[sig] = kf.get('what', sig)
                 return
             last['fail'] = (sig, detail, case)
+            last.setdefault('t', time.time())
+            failing[digest(case)] = last['fail']
             raise Found(sig)
 
     test = given(strategy)(body)
